@@ -1,1 +1,2 @@
 import ProfiVerif.Model.Telegram
+import ProfiVerif.Props.C19
